@@ -15,6 +15,8 @@ CHECKS = {
          "Rocq/Coq proof (per-tool induction: model trace = stdlib spec) + vm_compute correspondence impl<->model and CPython<->spec", "6 C01", "coq-calculus"),
  "C02": ("Value theorems for min/max (first extremal element, default untouched, ValueError/TypeError), all/any, sum, list, tuple, set, dict, reduce, sorted (stable, both directions), nlargest/nsmallest (= first n of the stable sort, all n) over all inputs (Props/C02.v); tie and oracle as for C01 plus an argument-mutation check and direct probes outside the item domain (strings, floats, one-shot iterators).",
          "Rocq/Coq proof (induction, heap invariant, stable-sort spec) + vm_compute correspondence + CPython oracle", "6 C02", "coq-calculus"),
+ "C03": ("awaitify_faithful / awaitify_flavour_independent: for every flavour of callable and every call history (including failing first calls) the wrapper invokes the callable exactly once per call and delivers its result or exception; aiter yields the same items for every kind of iterable (Props/C03.v). The calculus models of C01/C02 have no notion of flavour at all. Tied by re-running every generated C01/C02 case under random assignments of five iterable flavours and four callable flavours (mixed within one call) against the all-async run, the awaitify wrapper against the model in Coq, ExitStack exit callables in every flavour, and a probe of every public name for an awaitable / async iterator / async context manager result.",
+         "Rocq/Coq proof (state machine of the awaitify wrapper, dispatch lemma) + flavour-matrix differential on the implementation", "6 C03", "coq-machines"),
  "C04": ("tool_releases / tool_releases_closed: for every valid tool, every input and every single fault position and exception (or consumer close at a yield) every source is exhausted or has had aclose invoked when the run ends (Props/C04.v), by generic closure lemmas of the calculus; groupby/tee handle clauses are theorems of C16/C09. Tied to /repo by correspondence on every fault/close position of each generated case and the release predicate evaluated on the real instrumented sources.",
          "Rocq/Coq proof (regularity/closure lemmas, scoped_releases, close_all_releases) + exhaustive per-case fault enumeration with vm_compute correspondence", "6 C04", "coq-calculus"),
  "C05": ("The full interleaved trace of pulls, end detections, calls and yields of every iterator tool and all/any is proved equal to the stdlib trace specification for all inputs, and fault_prefix lifts it to every number of consumer steps (Props/C05.v); tied by comparing, after every consumer step count, implementation log vs CPython log and vs the model in Coq.",
@@ -25,6 +27,8 @@ CHECKS = {
          "Rocq/Coq proof (invariant by induction over operation lists) + vm_compute correspondence on operation histories", "6 C07", "coq-machines"),
  "C08": ("The same machine with scopes (Props/C08.v): inside any nesting of scoped_iter blocks nothing closes the underlying iterator, inner exits end only their own handle, the outermost exit closes it exactly once, afterwards the handle yields nothing; tied by histories with nested scopes and all exit kinds, plus blocks of real tools compared with the stdlib tools over a shared synchronous iterator.",
          "Rocq/Coq proof (invariant over histories with a scope stack) + vm_compute correspondence + shared-iterator oracle with the stdlib tools", "6 C08", "coq-machines"),
+ "C19": ("any_iter_yields / any_iter_shape_independent / any_iter_lazy, await_each_lazy / await_each_one_at_a_time, apply_order and its consequences for all items, shapes and numbers of consumer steps (Props/C19.v); the event traces of the real adapters are compared with the model for all 12 shapes x lengths 0..6 x every step count (exhaustive over the quantifier's domain), apply for all positional/keyword splits up to 4, sync on six kinds of callables.",
+         "Rocq/Coq proof (induction over item lists) + exhaustive vm_compute correspondence over the quantified domain", "6 C19", "coq-machines"),
  "C09": ("Inductive invariant over arbitrary schedules of a small-step model of tee_peer/_TeePeer (Props/C09.v): each live child has yielded-or-buffered exactly what was fetched, outputs are prefixes of the source, mutual exclusion on the source with a lock, closed children deregistered, source closed exactly when the last child is done, cancellation releases the lock; the model is compared after every action with the implementation under a hand-driven scheduler that enumerates interleavings exhaustively for small configurations.",
          "Rocq/Coq proof (invariant by induction over schedule lists) + exhaustive small-scope schedule enumeration with per-step vm_compute correspondence", "6 C09", "coq-machines"),
  "C10": ("key_classes (argument patterns distinguished exactly as functools._make_key does) and lru_refines (outputs, invocations and statistics equal the abstract LRU specification after every operation, for all maxsize/typed/histories) plus corollaries (Props/C10.v); three-way differential on every generated history: asyncstdlib, Coq model, functools.lru_cache.",
@@ -41,6 +45,8 @@ CHECKS = {
          "Rocq/Coq proof (projection/commutation over schedule lists) + schedule enumeration with vm_compute correspondence", "6 C15", "coq-machines"),
  "C16": ("groupby_refines: for all key functions, items and operation sequences the transliterated implementation state machine yields exactly what the positional itertools.groupby specification yields; stale groups stop, items come out as a subsequence, closing works from every state (Props/C16.v); tied by random and bounded-exhaustive operation sequences run on asyncstdlib.groupby and itertools.groupby and compared with model and spec in Coq.",
          "Rocq/Coq proof (simulation between implementation machine and positional spec) + vm_compute correspondence", "6 C16", "coq-machines"),
+ "C17": ("await_graph_closed / await_impls_transparent / asyncio_only_detection are decided by computation over Gen/AwaitGraph.v, which a fail-closed extractor regenerates from the library source on every run: every await / async for / async with site awaits a user-supplied awaitable or a library coroutine, every __await__ delegates, asyncio is imported only for coroutine-function detection; suspends_only_where_users_suspend states what the closed graph means (Props/C17.v). Tied dynamically by driving every tool, aggregation and stateful operation by hand with user awaitables that yield unique tokens and check token-specific replies and thrown exceptions at every suspension, with asyncio's loop accessors poisoned, and zero suspensions for synchronous arguments. Partial: that `await` forwards yields/sends/throws unchanged is PEP 492 semantics (trusted).",
+         "Rocq/Coq proof by computation over tables extracted from the source on every run + token/reply pass-through driving", "6 C17", "coq-machines"),
  "C18": ("Cancellation = a BaseException thrown at an arbitrary use: fault_transparent and tool_releases instantiated with it (Props/C18.v) for the iterator tools and aggregations; tied by throwing into the hand-driven coroutine at every suspension point of executions whose sources (pull and aclose) and callables all suspend, then closing the iterator and checking release on the real sources. The tee / lru_cache / cached_property / ExitStack / scoped_iter clauses are covered by the machines of C09/C11/C12/C14/C08.",
          "Rocq/Coq proof (regularity with BaseException faults + release) + cancellation injected at every suspension point", "6 C18", "coq-calculus"),
 }
